@@ -8,6 +8,60 @@ ROOT = os.path.dirname(os.path.dirname(os.path.abspath(__file__)))
 
 # id -> (design_ref, text, note, technique)
 CLAIMED = {
+    "C04": ("5/C04",
+            "A TLA+ module models every view/wrapper/batch operation of the kvstore as an operation on ONE ordered map keyed by "
+            "realm||key; TLC checks realm isolation, iteration order/prefix/stop, DeletePrefix/Clear exactness, batch last-op-wins, "
+            "closed=>ErrStoreClosed and aliasing-safety exhaustively on small alphabets; the exported transition systems (all 5 "
+            "views x 5 wrapper stacks x batches x 0xff/empty keys) are replayed edge by edge on the real mapdb/flushkv/debug objects, "
+            "and long random histories of the real objects are validated by TLC.",
+            "Bounds: keys of length <=2 over {0,1,255}, <=3 live keys in the LTS, 16 keys in traces; debug callback contents not modelled.",
+            "TLA+ sequential spec (TLC exhaustive), LTS tour replay on real objects, TLC trace validation"),
+    "C06": ("5/C06",
+            "TLA+ modules TypedValue/TypedStore with an outcome plan per operation (every codec and store call may fail, compute "
+            "functions may abort/fail); TLC checks cache-coherence, stored-bytes=last-written-value and failure=>unchanged+reported; "
+            "complete LTS replay on the real objects over a fault-injecting store and failing codecs; recorded random fault histories "
+            "validated by TLC; a model of the fixed Compute defect is kept as negative control.",
+            "One fault per operation; fail-before-apply stores only; the 'concurrent callers are serialised' clause is covered by "
+            "TLC on the lock-level model and by free-running callers, not by forced schedules inside the critical section.",
+            "TLA+ spec with fault plans (TLC exhaustive), LTS replay with fault injection, TLC trace validation"),
+    "C07": ("5/C07",
+            "TLA+ module Sequence with crash/fail plans at every store-operation boundary (before/after), restarts with intervals 1..3 "
+            "and Release; TLC checks NoReuse, strict increase, waste<=interval per crash and 0 per Release exhaustively (4 incarnations, "
+            "8 numbers) and an implementation-level model with 2 concurrent callers; the LTS is replayed on real Sequence objects over a "
+            "store wrapper that panics at operation k; recorded histories (incl. 2-4 goroutines) validated by TLC; 4 negative-control models.",
+            "Bounded incarnations/numbers; no Apalache inductive proof; crashes while concurrent callers run are explored on the model only.",
+            "TLA+ spec with crash points (TLC exhaustive), crash-injecting LTS replay, TLC trace validation"),
+    "C09": ("5/C09",
+            "TLA+ module AuthMap (contents, committed snapshot, ever-committed flag); root = injective function of contents learned by "
+            "the harness across all paths of the LTS tour (equal contents via different histories => equal root bytes, different contents "
+            "=> different); complete LTS replay on ads.Map and ads.Set over mapdb incl. reopen after commit, keys sharing 20-29 hash-path "
+            "bits, nil/empty values; recorded histories validated by TLC.",
+            "4 keys x 3 values; reopen asserted only at committed points; root injectivity only on everything explored.",
+            "TLA+ sequential spec (TLC exhaustive), LTS tour replay with learned root table, TLC trace validation"),
+    "C11": ("5/C11",
+            "TLA+ modules OrderedMap, OrderedSet, SetArith: insertion order, exact diffs of Apply/AddAll/DeleteAll/Replace/Compute, set "
+            "algebra and arithmetic thresholds, Encode/Decode; TLC exhaustive on a 3-element universe; complete LTS replay on the real "
+            "objects; recorded histories validated by TLC; the pre-fix Replace kept as negative control; concurrent clause: see units in props/C11.py.",
+            "3-element universe; concurrency clause (no deadlock/atomicity/linearizability) decided by forced schedules and free-running "
+            "histories for the method pairs listed in DESIGN.md, not for all combinations.",
+            "TLA+ sequential specs (TLC exhaustive), LTS tour replay, TLC trace validation, forced schedules"),
+    "C12": ("5/C12",
+            "One TLA+ module per container (ShrinkingMap, RandomMap, PriorityQueue/generalheap, timed.PriorityQueue, Queue, RingBuffer, "
+            "Stack x2, BytesFilter, Walker, TimeHeap, IndexedStorage, OnChangeMap, SubscriptionManager) over small universes and all "
+            "option settings; TLC exhaustive; every LTS edge (nondeterministic picks followed adaptively) replayed on the real object; "
+            "recorded random histories validated by TLC.",
+            "Universes of 3 keys/values, capacities 1-3; TimeHeap uses coarse real-time epochs (runs that miss their own margins are "
+            "discarded, never alarms).",
+            "TLA+ sequential specs (TLC exhaustive), adaptive LTS tour replay, TLC trace validation"),
+    "C16": ("5/C16",
+            "TLA+ module WorkerPool at quiescent points with task bodies and the Submit yield point as gates: every arrival order of "
+            "Submit / held Submit / Shutdown / Start / ShutdownComplete.Wait / WaitIsZero / task completion for 1-2 workers, cancel on/off, "
+            "tasks that submit tasks, restart; TLC checks conservation, counter equation, justified waiters, shutdown completion; the "
+            "complete LTS is replayed on the real pool with goroutine park detection; PoolGroup (WaitChildren/Shutdown over a 2-level tree) "
+            "likewise; free-running stress executions validated by TLC against PoolRun.",
+            "2 harness threads, <=3 tasks in the LTS; interleavings inside the pool's own critical sections only through the one yield "
+            "point and free-running stress; one known finding (WaitGroup reuse panic on restart with a concurrent waiter).",
+            "TLA+ quiescent-point spec (TLC exhaustive), gate/hook-driven LTS replay on real goroutines, TLC trace validation"),
     "C17": ("5/C17",
             "TLC checks exclusion, counter exactness and (under weak fairness) no-lost-wake-up on an implementation-level "
             "TLA+ model of StarvingMutex for ALL interleavings of 3 threads x lock/unlock scripts, plus API-level quiescent-point "
